@@ -88,6 +88,9 @@ inductive CStep
   | raise_                         -- an await inside `_connect` raises
   | openProtocol                   -- self._protocol = <the new datagram endpoint>
   | useProtocol                    -- await self._protocol.get(..) / await self.struct.get(self._protocol, ..): AttributeError once disconnected
+  | checkAlive                     -- `if self._disconnected: transport.close(); return` right after the endpoint creation: `_connect`
+                                   -- stops when the spa was disconnected meanwhile (the manager only disconnects a spa it then drops;
+                                   -- stopping is modelled as leaving through the exception path: same events, same states)
 deriving DecidableEq, Repr
 
 structure Table where
